@@ -290,3 +290,15 @@ def enclosing(node, kinds):
     while n is not None and not isinstance(n, kinds):
         n = getattr(n, '_parent', None)
     return n
+
+
+def walk_shallow(node):
+    """ast.walk that does not descend into nested function / class definitions or lambdas."""
+    todo = list(ast.iter_child_nodes(node))
+    yield node
+    while todo:
+        n = todo.pop()
+        yield n
+        if isinstance(n, (ast.FunctionDef, ast.AsyncFunctionDef, ast.ClassDef, ast.Lambda)):
+            continue
+        todo.extend(ast.iter_child_nodes(n))
